@@ -152,8 +152,12 @@ def run_worker(wd, spec, seed):
     env["VERIF_HARNESS"] = cybuild.HERE
     path = os.path.join(wd, "c42_worker.py")
     if not os.path.exists(path):
-        with open(path, "w") as f:
+        # called from several threads: write atomically under a per-thread temporary name
+        import threading
+        tmp = path + ".tmp%d_%d" % (os.getpid(), threading.get_ident())
+        with open(tmp, "w") as f:
             f.write(WORKER)
+        os.replace(tmp, path)
     p = subprocess.run([cybuild.PY, path, json.dumps(spec)], capture_output=True, text=True, env=env, timeout=1500)
     try:
         return json.loads(p.stdout.strip().splitlines()[-1])
@@ -742,9 +746,12 @@ def run_session_worker(wd, famdir, label, steps, files, seed=0):
     env["VERIF_HARNESS"] = cybuild.HERE
     path = os.path.join(wd, "c42_session_worker.py")
     if not os.path.exists(path):
-        with open(path + ".tmp%d" % os.getpid(), "w") as f:
+        # several threads of this process get here at once: one temporary name per thread
+        import threading
+        tmp = path + ".tmp%d_%d" % (os.getpid(), threading.get_ident())
+        with open(tmp, "w") as f:
             f.write(SESSION_WORKER)
-        os.replace(path + ".tmp%d" % os.getpid(), path)
+        os.replace(tmp, path)
     outroot = os.path.join(famdir, "out_" + label)
     p = subprocess.run([cybuild.PY, path, json.dumps({"cwd": cwd, "outroot": outroot, "steps": steps})],
                        capture_output=True, text=True, env=env, timeout=1500)
